@@ -1,2 +1,65 @@
-(* C01 - placeholder: statements land with Link/RxProofs.v *)
-From ZB Require Import Link.Rx Link.RxSpec.
+(* C01 - serial receive decoding is exact and independent of chunk boundaries.
+   Only statements, closed by `exact`, with Print Assumptions beneath. *)
+From Coq Require Import NArith List.
+From ZB Require Import Base.Bytes Link.LinkSpec Link.LinkSpecProofs Link.Rx Link.RxSpec Link.RxProofs.
+Import ListNotations.
+Open Scope N_scope.
+
+(* For every link state (any buffer content), handler, and partition of the incoming bytes into one
+   or more read chunks: no exception escapes, and what is written and handed up is what the spec
+   receiver does for the frames of the greedy spec parse of the WHOLE byte sequence - the chunk
+   boundaries do not appear on the right-hand side. *)
+Theorem C01_chunk_independent_and_exact : forall h st c cs,
+  bytes_ok (rx_buf st) -> Forall bytes_ok (c :: cs) ->
+  let '(p, e, o) := outs_of (rx_pack_seq st) (rx_ack_event st) (rx_open st)
+                            (spec_parse (rx_buf st ++ concat (c :: cs))) in
+  exists buf, rx_run h st (c :: cs) = ({| rx_buf := buf; rx_pack_seq := p; rx_ack_event := e; rx_open := rx_open st |}, o, false).
+Proof. exact rx_chunk_independent_exact. Qed.
+Print Assumptions C01_chunk_independent_and_exact.
+
+(* the frames the extractor delivers for a buffer are exactly the greedy spec parse (spec CRCs, declared
+   length = actual length, NCP type), for every byte string *)
+Theorem C01_deliveries_are_the_spec_parse : forall b, bytes_ok b -> dels b = spec_parse b.
+Proof. exact dels_spec. Qed.
+Print Assumptions C01_deliveries_are_the_spec_parse.
+
+(* soundness: every parsed frame is a well-formed frame occurrence at its offset *)
+Theorem C01_sound : forall s o w, In (o, w) (spec_parse_pos s) -> exists rest, spec_decode (skipn o s) = Some (w, rest).
+Proof.
+  intros s o w H. destruct (spec_sound (length s) s 0 s (le_n _) eq_refl o w H) as (r & A & _). exists r. exact A.
+Qed.
+Print Assumptions C01_sound.
+
+(* each once, in stream order, without overlap *)
+Theorem C01_in_order_once : forall s, incr 0 (spec_parse_pos s).
+Proof. intros s. exact (spec_parse_increasing (length s) s 0 (le_n _)). Qed.
+Print Assumptions C01_in_order_once.
+
+(* completeness: a well-formed frame occurrence is parsed unless it starts inside the declared extent
+   of an earlier header that passed the header checksum *)
+Theorem C01_complete : forall s i w rest, spec_decode (skipn i s) = Some (w, rest) ->
+  (forall p sz fl, (p < i)%nat -> claims (skipn p s) = Some (sz, fl) -> N.of_nat p + 2 + sz <= N.of_nat i) ->
+  In (i, w) (spec_parse_pos s).
+Proof. exact spec_complete. Qed.
+Print Assumptions C01_complete.
+
+(* promptness: with the bytes received so far, however chunked *)
+Theorem C01_prompt : forall h st c cs i w rest, bytes_ok (rx_buf st) -> Forall bytes_ok (c :: cs) ->
+  let s := rx_buf st ++ concat (c :: cs) in
+  spec_decode (skipn i s) = Some (w, rest) -> w_ack w = false ->
+  (forall p sz fl, (p < i)%nat -> claims (skipn p s) = Some (sz, fl) -> N.of_nat p + 2 + sz <= N.of_nat i) ->
+  In (ODeliver w) (snd (fst (rx_run h st (c :: cs)))).
+Proof. exact rx_prompt. Qed.
+Print Assumptions C01_prompt.
+
+(* "well-formed frame" is not an empty notion: the decoder inverts the encoder on every wf value *)
+Theorem C01_wellformed_frames_decode : forall w r, wf w -> spec_decode (spec_encode w ++ r) = Some (w, r).
+Proof. exact spec_decode_encode. Qed.
+Print Assumptions C01_wellformed_frames_decode.
+
+(* non-vacuity: noise, a valid frame, a corrupted copy, a second valid frame: 2 frames parsed *)
+Example C01_instance :
+  let f1 := [0xDE; 0xAD; 0x0E; 0; 6; 0xC0; 0x5D; 0xB3; 0x50; 0; 0; 1; 0; 1; 2; 3] in
+  let bad := [0xDE; 0xAD; 0x0E; 0; 6; 0xC0; 0x5D; 0xB3; 0x50; 0; 0; 1; 0; 1; 2; 4] in
+  length (spec_parse ([0xDE; 1; 2] ++ f1 ++ bad ++ f1)) = 2%nat.
+Proof. vm_compute. reflexivity. Qed.
